@@ -79,6 +79,15 @@ CLAIMED = {
          "fixed seed; TLC compares every result with the spec value of the monolithic schema (Encode, Norm, JsonEnc, CanonText) and parses the "
          "container header on its own (AvroFile!ParseFile).",
          "TLA+ spec (AvroSchema, AvroBinary, AvroJson, AvroCanon, AvroFile) + TLC trace validation", "3/C12"),
+ "C17": ("V: every history of length 2 over an alphabet of ~24 concrete public calls chosen to collide (same type names defined differently, reused "
+         "parsed-schema objects, calls failing midway, decimals of different precision, JSON defaults, generate, load, resolution, interleaved readers) "
+         "plus random histories of length 3-6, each in a freshly imported library; TLC compares each call's projected result with the same call made "
+         "first in a fresh library and the projected arguments before/after.",
+         "session histories enumerated up to a bound, judged by TLC (trace validation against 'result = f(arguments)')", "3/C17"),
+ "C18": ("Fault/schedule enumeration: footprints of shared-state writes are recorded per operation under sys.settrace and given to the Threads model "
+         "(TLC) which proposes conflicting schedules; those and every single pre-emption point (library-line granularity) of 16 ordered operation "
+         "pairs are replayed on the real code by a deterministic two-thread scheduler and compared with the sequential results.",
+         "TLA+ Threads model over recorded footprints + deterministic schedule replay", "3/C18"),
 }
 checks = []
 for p in props:
